@@ -115,7 +115,7 @@ CHECKS = {
         engine="bex",
         category="exploration",
         design_ref="5/C13",
-        technique="bounded-exhaustive enumeration of filters x apexes x depths against a reference quadtree; all position pairs to a depth bound",
+        technique="bounded-exhaustive enumeration of filters x apexes x depths against a reference quadtree; all position pairs to a depth bound; stateful interleaving exploration of one pyramid counted, then walked and leaf-visited by worker processes under a virtual scheduler",
         text="Every effective depth-2 TOAST filter (17^4), every depth-1 filter, generic pyramids to depth 4-5 with every apex (to depth 3) and a 51-filter family with every apex are pushed through count_leaf_tiles/count_live_tiles/count_operations, visit_leaves, walk and the position generator and compared with an independent reference quadtree, the closed forms and the sub-pyramid/full differential; the position algebra is checked on every pair of positions to depth 4 (5 in thorough).",
         note="Reference model vt/ref/quadtree.py written from the documentation. Depth-3 filters exhaustive only within one level-1 quadrant (thorough).",
     ),
@@ -131,7 +131,7 @@ CHECKS = {
         engine="bex",
         category="model_checking",
         design_ref="5/C15",
-        technique="exhaustive pattern enumeration for buffer ops + breadth-first search over operation histories on a tile directory against a reference dict",
+        technique="exhaustive pattern enumeration for buffer ops + breadth-first search over operation histories on a tile directory against a reference dict + every bounded operation sequence on one held Image object + stateful exhaustive interleaving exploration of worker processes storing tiles under a virtual scheduler",
         text="Buffers: all 8 modes x 4 slice-indexer kinds (full, sub-rectangle, negative-step rows to row 0 and inner) x all 2^6 source x 2^6 destination defined/undefined patterns for update, fill (plus pointwise integer-array indexers), clear, is_completely_masked and make_maskable_buffer against a per-pixel reference. Persistence: BFS over histories of a 9-operation alphabet (write defined A/B, partly undefined, all undefined; read default none/masked; update identity/region; stale file) to depth 3 (4) per (mode, lossless format, naming scheme) - 15 pairs x 2 - with the file-exists-iff-reference invariant and exact read-back checked after every step, also with an explicit format= differing from the pyramid default; defined float pixels include +-inf; buffers handed out for two missing tiles / nested update blocks must not alias. Thorough adds all 2^9 x 2^9 patterns on a 3x3 buffer.",
         note="Format capability table fixed from the formats' definitions. Known finding: all-zero integer tiles are stored (see known_findings.json).",
     ),
@@ -163,7 +163,7 @@ CHECKS = {
         engine="vmp",
         category="model_checking",
         design_ref="5/C19",
-        technique="fault enumeration (every failing item) x stateful exhaustive interleaving exploration under a virtual scheduler",
+        technique="fault enumeration (every single failing item, every item failing; error, unpicklable error, death) x stateful exhaustive interleaving exploration under a virtual scheduler",
         text="For each of the five parallel stages and each single failing item - raising RuntimeError, OSError or ValueError, or dying abruptly (SIGKILL-like, exit code -9) - all interleavings are explored: every terminal state must have the stage raise to its caller, there is no deadlock, and from every reachable state a terminal state is reachable (no waiting forever); configurations include six and ten simultaneously ready tiles (more than the done queue and a one-item pipe absorb) so that the abort path itself is exercised. An OSError while a cascade reads an existing child (EMFILE, EIO, EACCES, unreadable file) must reach the caller serially (4 children x 4 error kinds) and in parallel (explored). The serial reference behaviour (raises) is checked per configuration.",
         note=_E1_NOTE + " Single fault per run; at least two workers.",
     ),
